@@ -212,5 +212,58 @@ func properties() map[string]*propDef {
 		Rule:           "enumerated filter counts per level x middleware position x entry mode; every filter's pass-on/replace/attribute behaviour is a symbolic bit",
 		RequiredCovers: []string{"handler-ran", "routing-failure", "after-warmup"},
 	}
+	m["C05"] = &propDef{
+		ID: "C05",
+		Items: func(tier string, seed int) []item {
+			var out []item
+			add := func(prod, mode, capN, nparts int) {
+				for p := 0; p < nparts; p++ {
+					out = append(out, item{Harness: "H_C05", Cfg: []int{prod, mode, capN, p, nparts},
+						Label: "Produces list, mode (0: <=1 parameter per range, 1: <=2, 2: built-in names + symbolic tail), Accept capacity, length partition"})
+				}
+			}
+			if tier == "quick" {
+				add(0, 0, 8, 4)
+				add(1, 0, 8, 4)
+				add(2, 0, 8, 4)
+				add(4, 2, 3, 2)
+			} else {
+				add(0, 0, 9, 5)
+				add(1, 0, 13, 14)
+				add(2, 0, 11, 12)
+				add(1, 1, 10, 11)
+				add(3, 2, 5, 6)
+				add(4, 2, 5, 6)
+			}
+			return out
+		},
+		Bounds: map[string]interface{}{"accept_bytes": "8 (thorough up to 13)", "ranges": 2, "parameters_per_range": "1 (mode 1: 2)", "produces": "[a/x], [a/j,a/x], [a/x,a/j], [application/xml], [application/json,application/xml]",
+			"registered_writers": "{a/j (JSON), a/x (XML)} or the built-in pair", "q_values": "D or D.D{1,3} judged; other spellings unspecified; ParseFloat summarised on DIGIT{1,2}(.DIGIT{0,3})? / surely-invalid, the rest ends the path as unmodelled"},
+		Assumptions: append([]string{"JSON/XML marshalling is stubbed (arbitrary output or error)", "map iteration order is an explicit nondeterministic choice (all permutations explored)",
+			"DefaultResponseMimeType is empty (its default)"}, commonAssumptions...),
+		Rule:           "Produces list x Accept shape x capacity, partitioned by header length; the Accept header is a flat symbolic string; the entity-writer decision is taken twice per request with independent map orders",
+		RequiredCovers: []string{"admitted", "not-admitted", "definite"},
+	}
+	m["C15"] = &propDef{
+		ID: "C15",
+		Items: func(tier string, seed int) []item {
+			cfgs := [][]int{{1, 0}, {2, 0}, {1, 1}, {2, 1}}
+			if tier == "thorough" {
+				cfgs = append(cfgs, []int{3, 0}, []int{3, 1})
+			}
+			var out []item
+			for _, c := range cfgs {
+				out = append(out, item{Harness: "H_C15", Cfg: c, Label: "number of writing calls, CompressingResponseWriter underneath (0/1)"})
+			}
+			return out
+		},
+		Bounds: map[string]interface{}{"calls": "1..2 (thorough 3) chosen from Write, WriteHeader, WriteErrorString, WriteError, WriteEntity, WriteHeaderAndEntity, WriteAsJson, WriteAsXml, WriteHeaderAndXml",
+			"payload_bytes": 3, "failing_call_index": "0..6", "accepted_prefix": "0..8 bytes, at most the write's length"},
+		Assumptions: append([]string{"JSON/XML marshalling is stubbed: output is an arbitrary byte string of <= 3 bytes or an error",
+			"the precondition of the property (status set at most once and before any body byte) is assumed on the call sequence",
+			"with a CompressingResponseWriter underneath, the compressor is the typestate stub (accepts every write)"}, commonAssumptions...),
+		Rule:           "every sequence of the listed calls (symbolic choice per step) x pretty-print flag x position at which the underlying writer starts failing x accepted prefix lengths",
+		RequiredCovers: []string{"writer-failed", "compressed"},
+	}
 	return m
 }
